@@ -38,6 +38,8 @@ import (
 	"unsafe"
 
 	client "github.com/liftbridge-io/liftbridge-api/v2/go"
+	proto "github.com/liftbridge-io/liftbridge/server/protocol"
+	"google.golang.org/grpc/metadata"
 	"google.golang.org/grpc/codes"
 	"google.golang.org/grpc/status"
 )
@@ -51,8 +53,101 @@ type vC13Sub struct {
 	E      int64  `json:"e"`
 	Open   bool   `json:"open"`
 	Loop   bool   `json:"loop"`
+	Strm   string `json:"strm"` // client stream of a subscription made through the gRPC handler: open | ended; none
 	sub    *subscription
 	cancel context.CancelFunc
+	h      *vC13Handler // the gRPC handler call serving it (nil = made through SubscribeInternal)
+}
+
+// vC13Stream is the server side of a client's Subscribe stream, as gRPC hands it to
+// apiServer.Subscribe; what the handler sends is what the client receives.
+type vC13Stream struct {
+	ctx   context.Context
+	first chan struct{} // closed at the first Send (the empty message: subscription created)
+	once  sync.Once
+	mu    sync.Mutex
+	sent  int
+}
+
+func (m *vC13Stream) Send(*client.Message) error {
+	m.mu.Lock()
+	m.sent++
+	m.mu.Unlock()
+	m.once.Do(func() { close(m.first) })
+	return nil
+}
+func (m *vC13Stream) SetHeader(metadata.MD) error  { return nil }
+func (m *vC13Stream) SendHeader(metadata.MD) error { return nil }
+func (m *vC13Stream) SetTrailer(metadata.MD)       {}
+func (m *vC13Stream) Context() context.Context     { return m.ctx }
+func (m *vC13Stream) SendMsg(interface{}) error    { return nil }
+func (m *vC13Stream) RecvMsg(interface{}) error    { return nil }
+
+// vC13Handler is one call of the real gRPC handler apiServer.Subscribe
+type vC13Handler struct {
+	gid  int           // goroutine of the call
+	done chan struct{} // closed when the handler returned (the client's stream ended)
+	err  error
+	out  *vC13Stream
+}
+
+func vGoroutineID() int {
+	buf := make([]byte, 64)
+	f := strings.Fields(string(buf[:runtime.Stack(buf, false)]))
+	if len(f) >= 2 {
+		id, _ := strconv.Atoi(f[1])
+		return id
+	}
+	return -1
+}
+
+// vParkedInSelect: goroutine gid is WAITING in a select (from a stack dump).  A select
+// with a ready case never parks and closing a channel makes its waiters runnable at
+// once, so a handler still parked in its select after its subscription was closed
+// does not look at `closed` at all - an observation, not a matter of timing.
+func vParkedInSelect(gid int) bool {
+	buf := make([]byte, 1<<20)
+	for {
+		n := runtime.Stack(buf, true)
+		if n < len(buf) {
+			buf = buf[:n]
+			break
+		}
+		buf = make([]byte, 2*len(buf))
+	}
+	return strings.Contains(string(buf), fmt.Sprintf("goroutine %d [select", gid))
+}
+
+// settleStreams: every handler whose subscription is closed has returned, or is seen
+// (twice) parked in a select that ignores the closed subscription.
+func (r *vC13Run) settleStreams() {
+	for _, x := range r.subs {
+		if x.h == nil || !vIsClosed(x.sub) {
+			continue
+		}
+		deadline := time.Now().Add(vC13Deadline)
+		parked := 0
+		for {
+			select {
+			case <-x.h.done:
+			default:
+				if vParkedInSelect(x.h.gid) {
+					parked++
+				} else {
+					parked = 0
+				}
+				if parked >= 2 {
+					break
+				}
+				if time.Now().After(deadline) {
+					r.t.Fatalf("INCONCLUSIVE: behaviour %d: handler of a closed subscription neither returned nor parked", r.id)
+				}
+				time.Sleep(2 * time.Millisecond)
+				continue
+			}
+			break
+		}
+	}
 }
 
 type vC13Reg struct {
@@ -98,6 +193,7 @@ type vC13Run struct {
 	expLeader string
 	expEpoch  uint64
 	all       []*Server
+	later     map[string][]*partition // partition objects that appeared during the behaviour, per server
 	fifo      int // Race steps in which the mutex was seen in FIFO hand-over mode
 }
 
@@ -109,15 +205,49 @@ func vC13Count(p *partition) int64 {
 	return p.subscriberCount
 }
 
+// cur: the partition OBJECT server n works with now (the metadata's); r.p[n] is the
+// one it worked with when the behaviour started.  They differ when the object was
+// replaced (pause / resume) - subscriptions stay with the object that created them.
+func (r *vC13Run) cur(n string) *partition {
+	p := r.srv[n].metadata.GetPartition(r.stream, 0)
+	if p == nil {
+		return r.p[n]
+	}
+	if p != r.p[n] {
+		known := false
+		for _, o := range r.later[n] {
+			known = known || o == p
+		}
+		if !known {
+			if r.later == nil {
+				r.later = map[string][]*partition{}
+			}
+			r.later[n] = append(r.later[n], p)
+		}
+	}
+	return p
+}
+
+// count: loops running on the partition objects of server n (the one of the start
+// of the behaviour and, if it was replaced, the current one)
+func (r *vC13Run) count(n string) int64 {
+	r.cur(n)
+	c := vC13Count(r.p[n])
+	for _, o := range r.later[n] {
+		c += vC13Count(o)
+	}
+	return c
+}
+
 func (r *vC13Run) waitCount(n string, want int64, what string) {
 	deadline := time.Now().Add(vC13Deadline)
 	for {
-		if vC13Count(r.p[n]) == want {
+		if r.count(n) == want {
 			return
 		}
 		if time.Now().After(deadline) {
 			r.t.Fatalf("INCONCLUSIVE: behaviour %d: %s: subscriberCount[%s]=%d, waited for %d",
-				r.id, what, n, vC13Count(r.p[n]), want)
+				r.id, what, n, r.count(n), want)
 		}
 		time.Sleep(20 * time.Microsecond)
 	}
@@ -145,12 +275,21 @@ func (r *vC13Run) state() vC13State {
 	for _, s := range r.subs {
 		c := *s
 		c.Open = !vIsClosed(s.sub)
+		c.Strm = "none"
+		if s.h != nil {
+			c.Strm = "open"
+			select {
+			case <-s.h.done:
+				c.Strm = "ended"
+			default:
+			}
+		}
 		st.Subs = append(st.Subs, c)
 	}
 	for _, n := range vC13Nodes {
 		st.Reg[n], st.RegCE[n] = map[string]int{}, map[string]vC13Reg{}
 		for _, g := range r.groups {
-			m := r.p[n].GetGroupConsumer(r.realGroup(g))
+			m := r.cur(n).GetGroupConsumer(r.realGroup(g))
 			if m == nil {
 				st.Reg[n][g] = 0
 				st.RegCE[n][g] = vC13Reg{}
@@ -165,7 +304,7 @@ func (r *vC13Run) state() vC13State {
 			st.Reg[n][g] = idx
 			st.RegCE[n][g] = vC13Reg{S: idx, C: m.consumerID, E: int64(m.groupEpoch)}
 		}
-		st.NLoops[n] = vC13Count(r.p[n]) - r.base[n]
+		st.NLoops[n] = r.count(n) - r.base[n]
 	}
 	st.Ldr = r.leaderNode()
 	return st
@@ -176,7 +315,7 @@ func (r *vC13Run) state() vC13State {
 func (r *vC13Run) leaderNode() string {
 	out := "?"
 	for _, n := range vC13Nodes {
-		if l, _ := r.p[n].GetLeader(); l == r.srv[n].config.Clustering.ServerID {
+		if l, _ := r.cur(n).GetLeader(); l == r.srv[n].config.Clustering.ServerID {
 			if out != "?" {
 				return "?"
 			}
@@ -189,7 +328,7 @@ func (r *vC13Run) leaderNode() string {
 // checkEnv: nothing but the driver's own Elect steps may have moved the leadership
 func (r *vC13Run) checkEnv(what string) {
 	for _, n := range vC13Nodes {
-		if l, e := r.p[n].GetLeader(); l != r.expLeader || e != r.expEpoch {
+		if l, e := r.cur(n).GetLeader(); l != r.expLeader || e != r.expEpoch {
 			r.t.Fatalf("INCONCLUSIVE: behaviour %d: %s: leadership moved by itself (server %s sees leader %s epoch %d, arranged %s epoch %d)",
 				r.id, what, n, l, e, r.expLeader, r.expEpoch)
 		}
@@ -335,9 +474,14 @@ func (r *vC13Run) step(step map[string]interface{}) vC13Event {
 			n, ris := vStr(q, "n"), vBool(q, "ris")
 			g, c, e, bad, stop := vStr(q, "g"), vStr(q, "c"), vInt(q, "e"), vBool(q, "bad"), vStr(q, "stop")
 			_ = ris
-			args["q"] = map[string]interface{}{"n": n, "ris": ris, "g": g, "c": c, "e": e, "bad": bad, "stop": stop}
+			via := vStrDef(q, "via", "int")
+			args["q"] = map[string]interface{}{"n": n, "ris": ris, "g": g, "c": c, "e": e, "bad": bad, "stop": stop, "via": via}
+			if via == "grpc" {
+				r.subscribeGRPC(&obs, r.request(q, step), n, g, c, e)
+				return
+			}
 			req := r.request(q, step)
-			before := vC13Count(r.p[n])
+			before := r.count(n)
 			ctx, cancel := context.WithCancel(context.Background())
 			sub, err := r.srv[n].api.SubscribeInternal(ctx, req)
 			obs.Err = vC13ErrClass(err)
@@ -374,7 +518,7 @@ func (r *vC13Run) step(step map[string]interface{}) vC13Event {
 			if ln == "?" {
 				r.t.Fatalf("INCONCLUSIVE: behaviour %d: no agreed leader", r.id)
 			}
-			before := vC13Count(r.p[ln])
+			before := r.count(ln)
 			for i := range cs {
 				wg.Add(1)
 				go func(i int) {
@@ -395,7 +539,7 @@ func (r *vC13Run) step(step map[string]interface{}) vC13Event {
 				// like Race: all subscribes park on consumersMu, then it is handed over in
 				// FIFO order (a subscribe that lets go of the mutex in the middle and takes it
 				// again queues behind the others)
-				m := &r.p[ln].consumersMu
+				m := &r.cur(ln).consumersMu
 				m.Lock()
 				w0 := vMutexWaiters(m)
 				close(start)
@@ -472,23 +616,23 @@ func (r *vC13Run) step(step map[string]interface{}) vC13Event {
 			}
 			n, g, c, e := vStr(q, "n"), vStr(q, "g"), vStr(q, "c"), vInt(q, "e")
 			args["q"] = map[string]interface{}{"n": n, "ris": vBool(q, "ris"), "g": g, "c": c, "e": e,
-				"bad": vBool(q, "bad"), "stop": vStr(q, "stop")}
+				"bad": vBool(q, "bad"), "stop": vStr(q, "stop"), "via": "int"}
 			if s < 1 || s > len(r.subs) || !r.subs[s-1].Loop || r.subs[s-1].N != n {
 				obs.A, a = "Skip", "Skip"
 				return
 			}
 			x := r.subs[s-1]
-			p := r.p[n]
+			p := r.cur(n)
 			req := r.request(q, step)
-			before := vC13Count(p)
+			before := r.count(n)
 			// the set of loop goroutines to compare with must hold no goroutine that is on
 			// its way out (subscriberCount is decremented a moment before the goroutine is
 			// gone): wait until every loop goroutine of the process is a counted one
 			loopsBefore := vLoopGoroutines()
-			for dl := time.Now().Add(vC13Deadline); int64(len(loopsBefore)) != vC13Count(r.p["L"])+vC13Count(r.p["F"]); loopsBefore = vLoopGoroutines() {
+			for dl := time.Now().Add(vC13Deadline); int64(len(loopsBefore)) != r.count("L")+r.count("F"); loopsBefore = vLoopGoroutines() {
 				if time.Now().After(dl) {
 					r.t.Fatalf("INCONCLUSIVE: behaviour %d: %d loop goroutines, subscriberCount %d + %d", r.id,
-						len(loopsBefore), vC13Count(r.p["L"]), vC13Count(r.p["F"]))
+						len(loopsBefore), r.count("L"), r.count("F"))
 				}
 				time.Sleep(50 * time.Microsecond)
 			}
@@ -580,24 +724,59 @@ func (r *vC13Run) step(step map[string]interface{}) vC13Event {
 						fresh++
 					}
 				}
-				if gone == 1 && int64(fresh) == accepted && vC13Count(p) == before-1+accepted {
+				if gone == 1 && int64(fresh) == accepted && r.count(n) == before-1+accepted {
 					break
 				}
 				if time.Now().After(deadline) {
 					close(stop)
 					r.t.Fatalf("INCONCLUSIVE: behaviour %d: race did not settle (loops gone %d, new %d, accepted %d, subscriberCount %d, before %d)",
-						r.id, gone, fresh, accepted, vC13Count(p), before)
+						r.id, gone, fresh, accepted, r.count(n), before)
 				}
 				time.Sleep(50 * time.Microsecond)
 			}
 			close(stop)
 			x.Loop = false
+			if x.h != nil {
+				// the client's context ended: the handler returns (and closes the subscription)
+				select {
+				case <-x.h.done:
+				case <-time.After(vC13Deadline):
+					r.t.Fatalf("INCONCLUSIVE: behaviour %d: handler did not return after its context ended", r.id)
+				}
+			}
 		case "Elect":
 			r.elect(&obs)
+		case "Resume":
+			// a ResumeStream operation for the RUNNING partition goes through Raft again (the
+			// duplicate of a request that was served already); returns when both servers
+			// have applied it
+			ms := r.metaLeader()
+			ctx, cancel := context.WithTimeout(context.Background(), vC13Deadline)
+			st := ms.metadata.ResumeStream(ctx, &proto.ResumeStreamOp{Stream: r.stream, Partitions: []int32{0}})
+			timedOut := ctx.Err() != nil
+			cancel()
+			if st != nil {
+				if timedOut {
+					r.t.Fatalf("INCONCLUSIVE: behaviour %d: resume timed out: %v", r.id, st.Message())
+				}
+				obs.Err = "refused:" + st.Message()
+				return
+			}
+			idx := ms.getRaft().AppliedIndex()
+			deadline := time.Now().Add(vC13Deadline)
+			for _, s := range r.all {
+				for s.getRaft().AppliedIndex() < idx {
+					if time.Now().After(deadline) {
+						r.t.Fatalf("INCONCLUSIVE: behaviour %d: resume not applied on every server", r.id)
+					}
+					time.Sleep(50 * time.Microsecond)
+				}
+			}
 		default:
 			r.t.Fatalf("unknown action %q", a)
 		}
 	}()
+	r.settleStreams()
 	r.checkEnv("after " + a)
 	return vC13Event{T: r.id, A: a, Args: args, St: r.state(), Obs: obs}
 }
@@ -605,23 +784,78 @@ func (r *vC13Run) step(step map[string]interface{}) vC13Event {
 // elect: the controller elects the other in-sync replica, through the real
 // metadataAPI.electNewPartitionLeader (Raft operation CHANGE_LEADER applied on both
 // servers); returns when both servers run in their new roles.
-func (r *vC13Run) elect(obs *vC13Obs) {
-	cur := r.leaderNode()
-	var ms *Server
+func (r *vC13Run) metaLeader() *Server {
 	deadline := time.Now().Add(vC13Deadline)
-	for ms == nil {
+	for {
 		for _, s := range r.all {
 			if s.IsLeader() {
-				ms = s
+				return s
 			}
 		}
-		if ms == nil {
-			if time.Now().After(deadline) {
-				r.t.Fatalf("INCONCLUSIVE: behaviour %d: no metadata leader", r.id)
-			}
-			time.Sleep(time.Millisecond)
+		if time.Now().After(deadline) {
+			r.t.Fatalf("INCONCLUSIVE: behaviour %d: no metadata leader", r.id)
 		}
+		time.Sleep(time.Millisecond)
 	}
+}
+
+// subscribeGRPC: the subscribe goes through the real gRPC handler apiServer.Subscribe
+// with the server side of a client stream; the handler call stays alive as long as
+// it serves the stream.  (The stream's context ends only at a LoopExit step - gRPC
+// itself would end it when the handler returns; the loop is then simply scheduled late.)
+func (r *vC13Run) subscribeGRPC(obs *vC13Obs, req *client.SubscribeRequest, n, g, c string, e int64) {
+	before := r.count(n)
+	ctx, cancel := context.WithCancel(context.Background())
+	h := &vC13Handler{done: make(chan struct{}), out: &vC13Stream{ctx: ctx, first: make(chan struct{})}}
+	ready := make(chan struct{})
+	go func() {
+		defer close(h.done)
+		defer func() { // a panic of the real code is an observation
+			if p := recover(); p != nil {
+				h.err = fmt.Errorf("panic:%v", p)
+			}
+		}()
+		h.gid = vGoroutineID()
+		close(ready)
+		h.err = r.srv[n].api.Subscribe(req, h.out)
+	}()
+	<-ready
+	select {
+	case <-h.out.first:
+	case <-h.done:
+		cancel()
+		obs.Err = vC13ErrClass(h.err)
+		if h.err == nil {
+			obs.Err = "other:handler returned without serving"
+		}
+		return
+	case <-time.After(vC13Deadline):
+		cancel()
+		r.t.Fatalf("INCONCLUSIVE: behaviour %d: gRPC subscribe neither served nor refused", r.id)
+	}
+	// the subscription object behind the handler: the member the partition registered
+	m := r.cur(n).GetGroupConsumer(r.realGroup(g))
+	if m == nil || m.sub == nil {
+		cancel()
+		obs.Err = "other:served but no member registered"
+		return
+	}
+	id, isNew := r.adopt(m.sub, &vC13Sub{N: n, G: g, C: c, E: e, Loop: true, cancel: cancel, h: h})
+	obs.ID = id
+	if !isNew {
+		// the handler serves a subscription that existed already: a second client stream on
+		// it; end this one (its deferred Close is the real code's doing and is recorded)
+		cancel()
+		<-h.done
+		return
+	}
+	r.waitCount(n, before+1, "loop start")
+}
+
+func (r *vC13Run) elect(obs *vC13Obs) {
+	cur := r.leaderNode()
+	ms := r.metaLeader()
+	deadline := time.Now().Add(vC13Deadline)
 	mp := ms.metadata.GetPartition(r.stream, 0)
 	for mp == nil || len(mp.GetISR()) < 2 || cur == "?" {
 		if time.Now().After(deadline) {
@@ -647,9 +881,9 @@ func (r *vC13Run) elect(obs *vC13Obs) {
 	}
 	want := r.srv[next].config.Clustering.ServerID
 	for {
-		la, ea := r.p["L"].GetLeader()
-		lb, eb := r.p["F"].GetLeader()
-		if la == want && lb == want && ea == eb && r.p[next].IsLeader() && r.p[cur].isFollowingNow() {
+		la, ea := r.cur("L").GetLeader()
+		lb, eb := r.cur("F").GetLeader()
+		if la == want && lb == want && ea == eb && r.cur(next).IsLeader() && r.cur(cur).isFollowingNow() {
 			r.expLeader, r.expEpoch = want, ea
 			return
 		}
@@ -665,10 +899,10 @@ func (r *vC13Run) elect(obs *vC13Obs) {
 // sees the closed subscription or hands its final status to whoever reads the
 // error channel (the API handler) - the harness plays that reader.
 func (r *vC13Run) exitLoop(x *vC13Sub) {
-	before := vC13Count(r.p[x.N])
+	before := r.count(x.N)
 	x.cancel()
 	deadline := time.After(vC13Deadline)
-	for vC13Count(r.p[x.N]) != before-1 {
+	for r.count(x.N) != before-1 {
 		select {
 		case <-x.sub.Errors():
 		case <-x.sub.Messages():
@@ -678,6 +912,14 @@ func (r *vC13Run) exitLoop(x *vC13Sub) {
 		}
 	}
 	x.Loop = false
+	if x.h != nil {
+		// the client's context ended: the handler returns (and closes the subscription)
+		select {
+		case <-x.h.done:
+		case <-time.After(vC13Deadline):
+			r.t.Fatalf("INCONCLUSIVE: behaviour %d: handler did not return after its context ended", r.id)
+		}
+	}
 }
 
 func (r *vC13Run) finish() {
@@ -691,6 +933,14 @@ func (r *vC13Run) finish() {
 	}
 	for _, n := range vC13Nodes {
 		r.waitCount(n, r.base[n], "end of behaviour")
+		// objects that were replaced under running subscriptions are orphans whose loops
+		// would keep the server from stopping (hygiene, after the record)
+		now := r.cur(n)
+		for _, o := range append([]*partition{r.p[n]}, r.later[n]...) {
+			if o != now {
+				o.Close()
+			}
+		}
 	}
 }
 
